@@ -1,7 +1,7 @@
 import SpecterModel.Util
 import SpecterModel.C14.Model
 /-!
-C14 line-protocol driver. Model = `acrossRPC` over the GENERATED registry / handler table.
+C14 line-protocol driver. Model = `acrossRPC` over the GENERATED registry / externals / error-map / handler table.
 SPEC (from the statement): a registry error must arrive as the same registry variable with the origin's
 retryability; an unknown (arbitrary / canceled) error must arrive non-retryable; `context.DeadlineExceeded` — which
 the origin itself classifies as retryable (it is in `retryableErrs`, the wire code is failed_precondition) and which
@@ -12,25 +12,26 @@ nodes do return to remote callers (timeouts of forwarded operations) — must ke
 namespace Specter.C14
 open Specter.Util
 
-def registry : List Entry := Gen.C14.registry
+def entryOf (name : String) : Option Entry := known.find? (fun e => e.name == name)
 
-def entryOf (name : String) : Option Entry := registry.find? (fun e => e.name == name)
+/-- an external sentinel: the known entry if the source mentions it, else just an error with that message -/
+def extOf (name msg : String) : GoErr := match entryOf name with | some e => .reg e | none => .opaque msg
 
 def originOf (kind arg : String) : Option GoErr :=
   match kind with
   | "reg" => (entryOf arg).map .reg
   | "wrapped" => (entryOf arg).map (fun e => .wrap ("storing KV to successor: " ++ e.msg) (.reg e))
   | "alias" => (entryOf arg).map (fun e => .opaque e.msg)
-  | "deadline" => some .deadline
-  | "deadlinewrapped" => some (.wrap ("forwarding: " ++ deadlineMsg) .deadline)
-  | "canceled" => some (.opaque "context canceled")
+  | "deadline" => some (extOf "context.DeadlineExceeded" "context deadline exceeded")
+  | "deadlinewrapped" => some (.wrap "forwarding: context deadline exceeded" (extOf "context.DeadlineExceeded" "context deadline exceeded"))
+  | "canceled" => some (extOf "context.Canceled" "context canceled")
   | "opaque" => (hexToAscii arg).map .opaque
   | _ => none
 
 def render (x : GoErr) (origin : GoErr) : String :=
   match x with
-  | .reg e => s!"id={e.name} retry={boolStr (retryable registry x)} msgsame=-"
-  | .twirp c m => s!"id=tw:{c} retry={boolStr (retryable registry x)} msgsame={boolStr (m == origin.msg)}"
+  | .reg e => s!"id={e.name} retry={boolStr (retryable known x)} msgsame=-"
+  | .twirp c m => s!"id=tw:{c} retry={boolStr (retryable known x)} msgsame={boolStr (m == origin.msg)}"
   | _ => "other"
 
 def field (rhs key : String) : String :=
@@ -50,13 +51,13 @@ def step (_ : Unit) (toks : List String) (rhs : String) : Unit × Verdict :=
     | none, _, _ => ((), .diff s!"{name} is not in the extracted registry")
     | _, _, _ => ((), .bad "reg args")
   | ["regcount", n] =>
-    if n.toNat? = some registry.length then ((), .ok)
-    else ((), .diff s!"extracted registry has {registry.length} entries (harness table out of date?)")
+    if n.toNat? = some known.length then ((), .ok)
+    else ((), .diff s!"extracted registry + externals have {known.length} entries (harness table out of date?)")
   | ["rpc", method, kind, arg, oretry] =>
     match originOf kind arg, parseBool oretry with
     | some x, some oretry =>
       let how := howOf Gen.C14.handlers method
-      let got := acrossRPC registry how x
+      let got := acrossRPC known mapped how x
       let id := field rhs "id"
       let retry := field rhs "retry"
       let sp : Option String :=
@@ -74,7 +75,7 @@ def step (_ : Unit) (toks : List String) (rhs : String) : Unit × Verdict :=
       match sp with
       | some w => ((), .spec w)
       | none =>
-        if retryable registry x ≠ oretry then ((), .diff s!"model: retryable at the origin = {retryable registry x}")
+        if retryable known x ≠ oretry then ((), .diff s!"model: retryable at the origin = {retryable known x}")
         else if render got x ≠ rhs then ((), .diff (render got x))
         else ((), .ok)
     | _, _ => ((), .bad "rpc args")
